@@ -200,6 +200,16 @@ func runCheck(prop, tier string, seed int, t0 time.Time) int {
 		if e.fc != nil && e.fc.File != "" {
 			contractFiles[e.fc.File] = true
 		}
+		if e.fc != nil {
+			if al := w.renamed[e.fc.Key]; len(al) > 0 {
+				var parts []string
+				for o, n := range al {
+					parts = append(parts, o+" -> "+n)
+				}
+				sort.Strings(parts)
+				assumptions["variables of "+e.fn.String()+" were renamed since its contract was written; the contract's names are mapped by position / declaration order: "+strings.Join(parts, ", ")] = true
+			}
+		}
 		// a precondition of an exported function excludes inputs of the claim: list it
 		if e.fc != nil && e.fn.Parent() == nil && token.IsExported(e.fn.Name()) {
 			for _, cl := range e.fc.Requires {
